@@ -9,7 +9,7 @@ from harness import c06_schema as S
 PROP = "C06"
 COQ = dict(imports=["Model.Schema", "Model.Diff", "Spec.C06"], in_ty="c06_in", out_ty="c06_out",
            corr="corr_C06", decide="check_C06", inclass="inclass_C06", model="model_C06")
-THEOREMS = ["C06_quiet", "C06_converge", "C06_decider_sound", "C06_model_holds"]
+THEOREMS = ["C06_quiet_partial", "C06_converge_partial", "C06_quiet_refuted", "C06_converge_refuted", "C06_decider_sound", "C06_model_holds"]
 TRUSTED = [
     "reflect_sqlite (what SQLAlchemy 2.0 reflects from SQLite for the modelled universe) is a modelled table; it is compared "
     "with the abstraction of the really reflected tables on every case",
@@ -23,26 +23,37 @@ TRUSTED = [
 ASSUME = [
     "schemas are well formed (wf_schemab): table, column and constraint/index names unique in their scope, constraints over "
     "existing columns, primary-key columns NOT NULL; additionally for the tie: no two constraints of a table over the same column set",
-    "universe: tables, columns (type family + args, nullability, pk flag), named unique constraints, named plain-column indexes; "
-    "server defaults, foreign keys, CHECKs, comments, unnamed constraints, expression indexes, non-default schemas are outside",
+    "universe: tables, columns (type family + args, nullability, pk flag, server default), named unique constraints, named "
+    "plain-column indexes, named foreign keys without options; CHECKs, comments, unnamed constraints, expression indexes, "
+    "non-default schemas are outside",
+    "server defaults of the class dflt_ok (no quote, double quote, parenthesis or newline inside a Python-string default or inside a "
+    "text() expression / its single pair of quotes or parentheses; Python strings non-empty): outside it the property is REFUTED "
+    "(C06_quiet_refuted) - SQLiteImpl.compare_server_default reports a difference on a matching database",
     "an upgrade rendered without batch mode that contains an operation SQLite cannot ALTER may fail loudly; such a run is outside the property",
 ]
-RULE = ("ALL 380 ordered pairs of distinct catalogue types on one indexed column, then seeded random schema pairs: A = 1-4 tables (pk column + 0-5 columns over an 20-entry type catalogue, 0-3 named unique "
-        "constraints / indexes), B = A after 0-6 random changes from 14 kinds (tables/columns added or dropped, nullability, type "
-        "family, type arguments, constraint/index added, dropped, columns changed, unique flag flipped, kind swapped, renamed); "
-        "each pair is run under the 4 compare_type x compare_server_default settings, each with render_as_batch False and True. "
-        "non-trivial = the first comparison db(A) vs B yields at least one operation; distinct by the encoded pair")
+RULE = ("ALL 380 ordered pairs of distinct catalogue types on one indexed column, then seeded random schema pairs: A = 1-4 tables (pk "
+        "column + 0-5 columns over a 20-entry type catalogue, ~35% with a server default from a 19-entry catalogue of Python-string and "
+        "text() defaults; 0-3 named unique constraints / indexes; 0-2 named foreign keys, single- or two-column, to a table of lower or "
+        "equal name incl. self-reference), B = A after 0-6 random changes from 18 kinds (tables/columns added or dropped, nullability, "
+        "type family, type arguments, server default added/removed/changed, foreign key added/dropped/changed, constraint/index added, "
+        "dropped, columns changed, unique flag flipped, kind swapped, renamed), pairs violating 'no dropped table still referenced' "
+        "re-drawn; each pair is run under the 4 compare_type x compare_server_default settings, each with render_as_batch False and True "
+        "(rendered, executed, reflected, compared again). When finding C06-sqlite-string-default-not-quiet is registered, 4 witness "
+        "cases of the refuted class are added. non-trivial = the first comparison db(A) vs B yields at least one operation; distinct "
+        "by the encoded pair")
 EXHAUSTIVE = {"quick": False, "thorough": False}
 CASE_TIMEOUT = 60
 DESIGN_REF = "DESIGN.md section 5 C06"
-TECHNIQUE = ("Coq proof (induction over table / column / constraint lists via keyed-list lemmas) that the transcribed comparators "
+TECHNIQUE = ("Coq proof (induction over table / column / constraint / foreign-key lists via keyed-list lemmas, character-level lemmas about the default normalisation) that the transcribed comparators "
              "are quiet on a reflected copy and that applying their output makes a second comparison empty, tied to the code by an "
              "exact correspondence of operation lists, reflected schemas and post-upgrade schemas on seeded random pairs")
 LEVEL_TEXT = ("Machine-checked theorems over all well-formed schemas of the modelled universe (any number of tables, columns, "
-              "constraints): diff(reflect A, A) = [] and diff(reflect(apply(diff(reflect A, B), A)), B) = [] for every "
-              "compare_type/compare_server_default setting. The model (comparators, reflection, DDL meaning) is compared exactly "
+              "constraints, foreign keys; server defaults of the class dflt_ok): diff(reflect A, A) = [] and "
+              "diff(reflect(apply(diff(reflect A, B), A)), B) = [] for every compare_type/compare_server_default setting; the "
+              "full-strength statements over all server defaults are refuted with vm_compute witnesses (string defaults such as '(a)'). The model (comparators, reflection, DDL meaning) is compared exactly "
               "with the real compare/render/execute/reflect pipeline on SQLite on every run.")
-LEVEL_NOTE = ("Partial: closed type catalogue, SQLite only, no server defaults / foreign keys / expression indexes / unnamed constraints; "
+LEVEL_NOTE = ("Partial: closed type catalogue, SQLite only, server defaults restricted to dflt_ok (outside: known finding), foreign keys "
+              "without options, no expression indexes / unnamed constraints / CHECKs; "
               "reflection and DDL meaning are modelled tables validated by correspondence, not verified code.")
 
 
@@ -57,6 +68,28 @@ def generate(tier, seed):
     for _ in range(n):
         A, B, desc = S.gen_pair(rnd)
         yield {"A": A, "B": B, "desc": desc}
+    if _finding_registered():
+        yield from _witnesses()
+
+
+FINDING = "C06-sqlite-string-default-not-quiet"
+
+
+def _finding_registered():
+    import json, os
+    p = os.path.join(os.path.dirname(os.path.dirname(os.path.dirname(os.path.abspath(__file__)))), "known_findings.json")
+    try:
+        return any(f.get("id") == FINDING for f in json.load(open(p)).get("findings", []))
+    except Exception:
+        return False
+
+
+def _witnesses():
+    """the refuted class (C06_quiet_refuted): Python-string defaults outside dflt_ok; generated only once the finding is
+    registered in known_findings.json, so that an unregistered tree still checks clean on the proved class"""
+    for d in S.BAD_DEFAULTS:
+        A = [{"name": 0, "cols": [[0, 0, [], False, True, None], [1, 3, [20], True, False, list(d)]], "cons": [], "fks": []}]
+        yield {"A": A, "B": A, "desc": ["bad_default"]}
 
 
 def search(tier, seed):
@@ -114,5 +147,11 @@ def run_case(h):
     return dict(cin=cin, cout=cout, out=out, nontrivial=nontrivial, shape=shape)
 
 
+def _bad_default(d):
+    return d is not None and d[0] == "lit" and (d[1] == "" or any(ch in d[1] for ch in "'\"()\n"))
+
+
 def classify(human, out):
+    if any(_bad_default(c[5]) for Sx in (human["A"], human["B"]) for t in Sx for c in t["cols"]):
+        return FINDING
     return None
